@@ -718,6 +718,9 @@ func (t textNum) Int64() (int64, error)         { return strconv.ParseInt(string
 func atomicOf(v int64) *atomic.Int64 { a := new(atomic.Int64); a.Store(v); return a }
 
 func genC10(cw *caseWriter, seed uint64, tier string) {
+	// a slice of the template / row histories (refused imports included) under this property's name: declared columns keep
+	// their declarations (harness/alias.go)
+	genAliasHistories(cw, "C10", newRng(seed+1819), 60)
 	callees := append([]string{}, allCasters...)
 	for _, t := range tyNames {
 		callees = append(callees, "To:"+t)
@@ -840,6 +843,9 @@ func fixedWidthValues(r *rng, tier string) []interface{} {
 var fixedWidthTys = []string{"int", "i64", "i32", "i16", "i8", "uint", "u64", "u32", "u16", "u8", "f64", "f32", "bool"}
 
 func genC11(cw *caseWriter, seed uint64, tier string) {
+	// a slice of the template / row histories (refused imports included) under this property's name: declared columns keep
+	// their declarations (harness/alias.go)
+	genAliasHistories(cw, "C11", newRng(seed+1696), 60)
 	r := newRng(seed)
 	for _, v := range fixedWidthValues(r, tier) {
 		res, err, pan := emitCast(cw, "C11", "ToBinary", v, true)
